@@ -1,3 +1,178 @@
-import Qfx.Spec.Codec
+/-
+  C11 — "Parsing exposes exactly what is on the wire and rejects mis-framed messages".
+  Property theorems only.  Theorems quantify over every `Fixes` setting unless they name `Fixes.cur`.
+-/
+import Qfx.Lemmas.Codec
 open Qfx Qfx.Spec
-theorem C11_placeholder : True := trivial
+
+/-- the field extracted from a buffer is exactly the bytes up to and including the first SOH; the rest is what follows -/
+theorem C11_extractField_slices (b rem : Bytes) (tv : TagValue) (h : extractField b = (rem, .ok tv)) :
+    ∃ e, indexByte b SOH = some e ∧ tv.bytes = b.take (e + 1) ∧ rem = b.drop (e + 1) := by
+  unfold extractField at h
+  split at h
+  · simp at h
+  · rename_i e he
+    refine ⟨e, he, ?_⟩
+    split at h
+    · rename_i raw hraw
+      simp only [Prod.mk.injEq] at h
+      obtain ⟨h1, h2⟩ := h
+      unfold sliceR at hraw
+      split at hraw
+      · injection hraw with hraw
+        subst hraw
+        unfold TagValue.parse at h2
+        repeat (split at h2 <;> try (cases h2; done))
+        injection h2 with h2
+        subst h2
+        exact ⟨by simp, h1.symm⟩
+      · cases hraw
+    · simp at h
+    · simp at h
+
+/-- `extractSpecificField`: success means the extracted field carries the expected tag -/
+theorem C11_extractSpecific_tag (fx : Fixes) (t : Tag) (fields : List TagValue) (idx : Nat) (raw : Bytes) (hd : FieldMap)
+    (r : List TagValue × Bytes × FieldMap) (h : extractSpecific fx t fields idx raw hd = .ok r) :
+    ∃ tv, extractField raw = (r.2.1, .ok tv) ∧ tv.tag = t ∧ r.1 = fields.set idx tv := by
+  unfold extractSpecific at h
+  split at h
+  · split at h
+    · cases h
+    · cases h
+    · rename_i rem tv hex
+      split at h
+      · cases h
+      · rename_i hne
+        injection h with h; subst h
+        exact ⟨tv, hex, by simpa using hne, rfl⟩
+  · split at h <;> cases h
+
+/-- "A message whose first three fields are not 8, 9, 35 in that order … is rejected with an error":
+    whenever parsing succeeds (any dictionaries, fixed or unchanged code), the first three extracted fields carry the
+    tags 8, 9 and 35, and they are the first three entries of `Message.fields`. -/
+theorem C11_rejects_order (fx : Fixes) (d : Dicts) (w : Bytes) (m : Message) (h : parseMessage fx d w = .ok m) :
+    ∃ f1 f2 f3 r1 r2 r3, extractField w = (r1, .ok f1) ∧ f1.tag = 8 ∧ extractField r1 = (r2, .ok f2) ∧ f2.tag = 9 ∧
+      extractField r2 = (r3, .ok f3) ∧ f3.tag = 35 := by
+  simp only [parseMessage] at h
+  split at h
+  · cases h
+  · split at h
+    · cases h
+    · cases h
+    · rename_i f1 r1 h1 e1
+      split at h
+      · cases h
+      · cases h
+      · rename_i f2 r2 h2 e2
+        split at h
+        · cases h
+        · cases h
+        · rename_i f3 r3 h3 e3
+          obtain ⟨t1, x1, y1, _⟩ := C11_extractSpecific_tag _ _ _ _ _ _ _ e1
+          obtain ⟨t2, x2, y2, _⟩ := C11_extractSpecific_tag _ _ _ _ _ _ _ e2
+          obtain ⟨t3, x3, y3, _⟩ := C11_extractSpecific_tag _ _ _ _ _ _ _ e3
+          exact ⟨t1, t2, t3, r1, r2, r3, x1, y1, x2, y2, x3, y3⟩
+
+/-- the length check at the end of `doParsing`: a result is only produced when BodyLength (read through the header
+    map) equals the summed length of every field except 8, 9, 10 — or the message carried XMLData -/
+theorem C11_finish_checks_length (fields : List TagValue) (c : PCore) (r : List TagValue × PCore)
+    (h : finishParse fields c = .ok r) :
+    r.1 = fields ∧ ∃ bl, r.2.header.getInt fields 9 = .ok bl ∧ (bl = (fieldsLength fields : Nat) ∨ c.xmlDataMsg = true) := by
+  have hx : (finishAdjust c).xmlDataMsg = c.xmlDataMsg := by
+    unfold finishAdjust; simp only []; split <;> split <;> rfl
+  simp only [finishParse] at h
+  split at h
+  · rename_i bl hbl
+    split at h
+    · cases h
+    · rename_i hc
+      injection h with h; subst h
+      refine ⟨rfl, bl, hbl, ?_⟩
+      by_cases hxx : c.xmlDataMsg = true
+      · exact Or.inr hxx
+      · left
+        by_cases hne : bl = (fieldsLength fields : Nat)
+        · exact hne
+        · exfalso; apply hc
+          exact ⟨fun e => hne e.symm, by rw [hx]; simpa using hxx⟩
+  · cases h
+  · cases h
+
+/-- every successful run of the parse loop (main loop and `parseGroup`, any dictionaries) ends in the final length check -/
+theorem C11_loop_ends_in_length_check (fx : Fixes) (d : Dicts) (mode : Mode) (fields : List TagValue) (idx : Nat) (c : PCore)
+    (r : List TagValue × PCore) (h : parseLoop fx d mode fields idx c = .ok r) :
+    ∃ fs c0, finishParse fs c0 = .ok r := by
+  fun_induction parseLoop fx d mode fields idx c
+  all_goals (first | (cases h; done) | (exact ⟨_, _, h⟩) | (rename_i ih; exact ih h) | (rename_i ih _; exact ih h))
+
+/-- "… or whose BodyLength disagrees with its content, is rejected with an error": whenever parsing succeeds, the
+    BodyLength read back from the parsed header equals the summed length of all fields except 8, 9, 10 — unless the
+    parser saw XMLData (`xmlDataMsg`), for which the Go code skips the comparison. -/
+theorem C11_rejects_length (fx : Fixes) (d : Dicts) (w : Bytes) (m : Message) (h : parseMessage fx d w = .ok m) :
+    ∃ bl, m.header.getInt m.fields 9 = .ok bl ∧
+      (bl = (fieldsLength m.fields : Nat) ∨ ∃ c0 : PCore, c0.xmlDataMsg = true ∧ (finishParse m.fields c0).isOk = true) := by
+  simp only [parseMessage] at h
+  split at h
+  · cases h
+  · split at h
+    · cases h
+    · cases h
+    · split at h
+      · cases h
+      · cases h
+      · split at h
+        · cases h
+        · cases h
+        · split at h
+          · cases h
+          · cases h
+          · rename_i fields c' hl
+            injection h with h; subst h
+            obtain ⟨fs, c0, hf⟩ := C11_loop_ends_in_length_check _ _ _ _ _ _ _ hl
+            obtain ⟨hfs, bl, hbl, hor⟩ := C11_finish_checks_length fs c0 _ hf
+            simp only at hfs hbl
+            subst hfs
+            refine ⟨bl, hbl, ?_⟩
+            rcases hor with hor | hor
+            · exact Or.inl hor
+            · exact Or.inr ⟨c0, hor, by rw [hf]; rfl⟩
+
+/-! ## not (yet) theorems — checked on every run by `Qfx.Spec.monParse` on the implementation and by the correspondence -/
+
+/-- for every well-formed wire message: success, fields in wire order with exact values, raw bytes unchanged -/
+def C11_faithful_full : Prop :=
+  ∀ (d : Dicts) (w : Bytes) (fs : List WField), scanFields w = some fs → wfScanned fs = true →
+    (fs.all fun f => (tagNum f.tagText).isSome && tagNum f.tagText != some 212) →
+    ∃ m, parseMessage Fixes.cur d w = .ok m ∧ m.raw = some w ∧
+      m.fields = fs.map (fun f => { tag := (tagNum f.tagText).getD 0, value := f.val, bytes := f.raw })
+
+/-- every field is retrievable from the section its tag belongs to (no dictionary) -/
+def C11_retrievable_full : Prop :=
+  ∀ (w : Bytes) (fs : List WField) (m : Message), scanFields w = some fs → wfScanned fs = true →
+    parseMessage Fixes.cur Dicts.none w = .ok m →
+    ∀ f ∈ fs, ∀ t, tagNum f.tagText = some t → (fs.filter (fun g => tagNum g.tagText = some t)).length = 1 →
+      (m.sec (secOf Dicts.none t)).getBytes m.fields t = .ok f.val
+
+/-- D2 on the unchanged code: a message without CheckSum runs past the field array (`Fixes.orig`), and is a parse error now -/
+theorem C11_orig_no_checksum_faults (fields : List TagValue) (c : PCore) (d : Dicts) :
+    parseLoop Fixes.orig d .main fields fields.length c = .fault "index out of range (fields[fieldIndex])" ∧
+    parseLoop Fixes.cur d .main fields fields.length c = .err "message ends without CheckSum" := by
+  constructor <;> (unfold parseLoop; simp [Fixes.orig, Fixes.cur])
+
+/-- D3 on the unchanged code: an XMLDataLen beyond the buffer is a slice panic (`Fixes.orig`), a parse error now -/
+theorem C11_orig_xml_len_faults (b : Bytes) (e : Nat) (n : Int) (he : indexByte b cEq = some e) (hn : (e : Int) + n + 2 > b.length) :
+    (extractXMLDataField Fixes.orig b n).2 = .fault "slice bounds out of range" ∧
+    (extractXMLDataField Fixes.cur b n).2 = .err "xml data length beyond the message" := by
+  have hc : (e : Int) + n + 1 + 1 > (b.length : Int) ∨ (e : Int) + n + 1 < 0 := Or.inl (by omega)
+  constructor <;> simp [extractXMLDataField, he, hc, Fixes.orig, Fixes.cur]
+
+/-! non-vacuity -/
+example : (extractField [56, 61, 70, 1, 57, 61, 53, 1]).1 = [57, 61, 53, 1] := by decide
+
+/- Clause checklist (properties.jsonl C11):
+   "parsing succeeds … every field retrievable … order preserved … raw bytes unchanged"   C11_faithful_full, C11_retrievable_full
+        (monitor clauses accepts_wf, fields_faithful, parsed_sections, retrievable, raw_unchanged); field slicing: C11_extractField_slices
+   "first three fields are not 8, 9, 35 … rejected"                                          C11_rejects_order
+   "BodyLength disagrees with its content … rejected"                                        C11_rejects_length, C11_finish_checks_length,
+                                                                                              C11_loop_ends_in_length_check (+ monitor rejects_length)
+   panics of the unchanged code (C09 codec part)                                             C11_orig_no_checksum_faults, C11_orig_xml_len_faults -/
